@@ -80,7 +80,7 @@ func (ss *session) runOp(body func() retT) (retT, string) {
 	idc := make(chan string, 1)
 	go x04OpGoroutine(body, done, idc)
 	goid := <-idc
-	first := time.NewTimer(100 * time.Millisecond)
+	first := time.NewTimer(30 * time.Millisecond)
 	defer first.Stop()
 	select {
 	case r := <-done:
@@ -93,12 +93,12 @@ func (ss *session) runOp(body func() retT) (retT, string) {
 		select {
 		case r := <-done:
 			return r, "ret"
-		case <-time.After(5 * time.Millisecond):
+		case <-time.After(2 * time.Millisecond):
 		}
 		if atomic.LoadInt32(&ss.inflight) == 0 {
 			if b, where := blockedForEver(goid); b {
 				seen++
-				if seen >= 3 {
+				if seen >= 2 {
 					return retT{why: "the call never returns: " + where}, "hang"
 				}
 				continue
